@@ -36,6 +36,8 @@ def strategy(tier):
         "prefill": st.sampled_from([False, False, True]),
         # a symbolic link 'zz_alias' to the first subdirectory, with input.follow_symlinks off (default) or on
         "alias": st.sampled_from([None, None, None, "nofollow", "follow"]),
+        # a symbolic link in the tree to a CMake file stored outside it (a processed file like any other)
+        "filelink": st.sampled_from([False, False, True]),
         # the same process documented the same path before, when the subdirectories were still empty
         "warm": st.sampled_from([False, False, True]),
         # the input path passes through a symbolic link (a linked parent directory)
@@ -102,6 +104,20 @@ def evaluate(case):
             S.run_main([inp, "-r", "-o", sb.path("warm-out")], cwd=sb.path("cwd"))
             S.run_main([inp, "-o", sb.path("warm-out2")], cwd=sb.path("cwd"))
         S.materialize(tree, inp)
+        if case.get("filelink"):
+            content = "#[[[\n# Stored outside the tree.\n#]]\nfunction(shared_outside a)\nendfunction()\n"
+            os.makedirs(sb.path("else_shared"), exist_ok=True)
+            with open(sb.path("else_shared", "shared.cmake"), "w") as fh:
+                fh.write(content)
+            sub = sorted(tree["dirs"])[0] if tree["dirs"] and not sorted(tree["dirs"])[0].startswith("_out") else None
+            where = os.path.join(inp, sub) if sub and len(tree["files"]) % 2 == 0 else inp
+            os.symlink(sb.path("else_shared", "shared.cmake"), os.path.join(where, "zz_flink.cmake"))
+            res.labels.append("symlinked-file")
+            if where == inp:
+                tree = {"files": dict(tree["files"], **{"zz_flink.cmake": content}), "dirs": tree["dirs"]}
+            else:
+                tree = {"files": tree["files"], "dirs": dict(tree["dirs"], **{sub: {"files": dict(tree["dirs"][sub]["files"], **{"zz_flink.cmake": content}),
+                                                                                  "dirs": tree["dirs"][sub]["dirs"]}})}
         alias = case.get("alias") if [d for d in tree["dirs"] if not d.startswith("_out")] else None
         if alias:
             import copy
